@@ -622,7 +622,10 @@ def _screen_init_apply2(i, a, node, fr):
     f["control_treatment_name"] = a.control_treatment_name if not isinstance(a.control_treatment_name, str) else _strc(a.control_treatment_name)
     f["_sample_names"], f["plate_names"] = a.sample_names, a.plate_names
     f["_treatment_names"], f["_treatment_doses"] = a.treatment_names, a.treatment_doses
-    fresh = screen_fields()
+    _ar = a.treatment_names.shape[1]
+    if not isinstance(_ar, int) and z3.is_int_value(z3.simplify(to_int(_ar))):
+        _ar = z3.simplify(to_int(_ar)).as_long()
+    fresh = screen_fields(_ar if isinstance(_ar, int) else None)
     if a.observations is not None:
         f["_observations"] = a.observations
         f["_observation_mask"] = a.observation_mask if a.observation_mask is not None else fresh["_observation_mask"].fresh(ctx, "new.mask")
